@@ -42,7 +42,7 @@ def strategy(tier, phase):
     from vlib import protogen
 
     op = st.tuples(st.integers(0, N_OPS - 1), st.integers(0, 60), st.integers(0, 60), st.integers(0, 60)).map(list)
-    return st.fixed_dictionaries({"tape": protogen.tape_strategy(300), "irv": st.sampled_from([0, 10, 11, 13, 8, 9]),
+    return st.fixed_dictionaries({"gen": st.just(2), "tape": protogen.tape_strategy(300), "irv": st.sampled_from([0, 10, 11, 13, 8, 9]),
                                   "ops": st.lists(op, min_size=0, max_size=10)})
 
 
@@ -256,7 +256,7 @@ def execute(case):
     from vlib import universe as U
 
     try:
-        mp, features = protogen.build_model(case["tape"], case.get("irv") or None)
+        mp, features = protogen.build_model(case["tape"], case.get("irv") or None, case.get("gen", 1))
         # keep the seed proto inside what IR->proto can express (no value_info for unknown names etc.)
         model = ir.from_proto(mp)
         c = Ctx(model)
